@@ -537,9 +537,12 @@ func enumShapes(name string, sc shapeCtx) [][]string {
 	switch name {
 	case "auth":
 		return [][]string{
-			{"AUTH", pw}, {"AUTH", " " + pw + "\t"}, {"AUTH"}, {"AUTH", ""}, {"AUTH", pw + "x"}, {"AUTH", "x" + pw},
-			{"AUTH", strings.ToUpper(pw)}, {"AUTH", pw[:len(pw)-1]}, {"AUTH", pw[1:]}, {"AUTH", pw, pw}, {"AUTH", "*"},
+			{"AUTH", pw}, {"AUTH"}, {"AUTH", ""}, {"AUTH", pw + "x"}, {"AUTH", "x" + pw},
+			{"AUTH", strings.ToUpper(pw)}, {"AUTH", strings.ToLower(pw)}, {"AUTH", pw[:len(pw)-1]}, {"AUTH", pw[1:]}, {"AUTH", pw, pw}, {"AUTH", "*"},
 			{"AUTH", pw + " " + pw},
+			// near misses by padding: none of them is the password
+			{"AUTH", pw + " "}, {"AUTH", " " + pw}, {"AUTH", " " + pw + "\t"}, {"AUTH", "\t" + pw + "\r\n"}, {"AUTH", pw + "\r\n"}, {"AUTH", pw + "\n"},
+			{"AUTH", pw + "\x00"}, {"AUTH", "\x00" + pw}, {"AUTH", pw + "\u00a0"}, {"AUTH", "\v" + pw + "\f"},
 		}
 	case "config set":
 		return [][]string{
